@@ -129,6 +129,13 @@ check("C15",
   "Fixed keys and timestamps make block hashes, hence chance agreements of hash bytes, identical on every run. B's own fetches from A are not served (B holds the longer chain).",
   "DESIGN.md §3 C15")
 
+check("C12",
+  "exhaustive crash-point and torn-write enumeration over the storage-operation journal of real node histories, with restart through the real ConsensusThread::on_init",
+  "fault_enumeration",
+  "Histories: a real FullNode (loading mode, like saito-rust) receives, through its consensus handler, the blocks of block trees built by the real producer at genesis period 3 — stems of 3 / 8 / 10 blocks (8 and 10 cross the 2g pruning horizon and the rebroadcast edge) followed by every tree shape of 0..2 (quick) / 0..3 (thorough) further blocks, plus the variants with the last two deliveries swapped (reorganisations, equal-height competitors). The in-memory device journals every write and remove. For every prefix of every journal, for the write at the cut every torn form (absent, empty, cut inside the header, one byte before / exactly at the header end, inside the first transaction's length field, after the length fields, inside the first transaction, half, all but the last byte), and for both settings of delete_old_blocks: restart a fresh FullNode on the image with the real on_init. Oracles: no abort; tip is a block known before the crash or an ancestor; the restarted chain is contiguous, covers the spendable window and satisfies the C03 ledger-consistency clauses; supply is conserved; an honest child of the restarted tip is adopted; after that extension a further clean restart from the node's own files returns the same tip; for the uncut journal the tip, the in-window outputs and the reservoirs equal those before shutdown. Thorough additionally crashes the recovery itself at each of its own storage operations and restarts again.",
+  "Device model: write = create(truncate)+write_all (a torn write leaves a prefix), remove atomic; fresh wallet with the same keys at restart; MemIO is not cross-checked against saito-rust's RustIOHandler.",
+  "DESIGN.md §3 C12")
+
 NOT_YET = "check not built yet in this session (work in progress, see DESIGN.md §8 build order); nothing is claimed for it"
 NA = {}
 
